@@ -19,10 +19,15 @@ pub fn generate_qa_report(
 
     qa_report.push_str((overview_section + "\n").as_str());
 
+    //Render the sections in a fixed order, independent of hash map iteration and file discovery order
+    let mut qa_items = qa_items.into_iter().collect::<Vec<_>>();
+    qa_items.sort_by_key(|item| item.0 as usize);
+
     for item in qa_items {
         if item.1.len() > 0 {
             let qa_target = item.0;
-            let matches = item.1;
+            let mut matches = item.1;
+            matches.sort();
 
             let report_section = get_qa_report_section(qa_target);
 
